@@ -1,0 +1,18 @@
+#ifndef EAV_VERIF_HOOKS_H
+#define EAV_VERIF_HOOKS_H
+
+/*
+ * Verification hooks.  They expand to nothing unless the library is built
+ * with -DLIBEAV_VERIF, in which case <libeav_verif_loops.h> (not part of
+ * this repository; supplied by the verification harness through -I) gives
+ * them a meaning: loop contracts and ghost updates for a deductive verifier.
+ */
+#ifdef LIBEAV_VERIF
+#  include <libeav_verif_loops.h>
+#else
+#  define EAV_VERIF_LOOP(id)    /* loop contract: invariant, assigns, decreases */
+#  define EAV_VERIF_STEP(id)    /* ghost update at the top of a loop body */
+#  define EAV_VERIF_AT(id)      /* ghost statement / intermediate assertion */
+#endif
+
+#endif /* EAV_VERIF_HOOKS_H */
